@@ -52,6 +52,11 @@ CFG = {
         # carriers created after hydration / on a CSR page read nothing that was transferred
         "Leptos.Transfer.C12_post_hydration_reads_nothing",
         "Leptos.Transfer.cliRun_bounds",
+        # the error channel keeps the multiset of registered errors; blocking does not touch serialization
+        "Leptos.Transfer.C12_errors_preserved",
+        "Leptos.Transfer.start_prints_errors",
+        "Leptos.Transfer.C12_blocking_irrelevant",
+        "Leptos.Transfer.C12_carrier_serialized_iff_hydrating",
         # JSON codec end to end
         "Leptos.Transfer.C12_json_string_roundtrip",
         "Leptos.Transfer.jsonStrDecode_encode",
@@ -70,7 +75,10 @@ CFG = {
             "(kind, carrier) pair: kinds = String/FromToStringCodec, String/JsonSerdeCodec, serde_json::Value/JsonSerdeCodec, String/SerdeLite, "
             "String/MiniserdeCodec, Vec<u8>/custom binary codec, String and i64/RkyvCodec (binary kinds travel as base64; byte payloads include all 64 "
             "sextets, 0xfb/0xff bytes, empty, </script> U+2028 NUL); carriers = write_async by hand, the REAL ArcResource / Resource / ArcOnceResource / "
-            "OnceResource / SharedValue (loads completed by the schedule ops on a controlled executor); errors before and during the stream, seal_errors, "
+            "OnceResource / SharedValue, each built through the constructor leptos_server names for the codec and, for the four resource carriers, also through its "
+            "`*_blocking` twin (loads completed by the schedule ops on a controlled executor; oracle at creation: the value is handed to write_async exactly when the "
+            "flag is on); the error channel: 1-3 boundaries, a pool of three texts per case so that different errors with the same text in one boundary are common, bursts of "
+            "1-3 errors before pending_data(), between chunks and after the last value, seal_errors, "
             "incomplete chunks, is_hydrating toggles, islands mode; every completion order when <= 4 values are pending (1 session in 4) else a random "
             "order; the server exit is the pending_data() stream (3 in 4) or consume_buffers() (1 in 4), both polled by hand; every session ends with "
             "`hydrate`: the same carriers are created again, in the same order, on a client whose shared context serves ids from the real "
